@@ -230,3 +230,36 @@ Fixpoint c16_sim_walk (all : bool) (m : sim_mon) (evs : list sim_ev) : option si
   end.
 
 Definition sim_mon_init : sim_mon := mkMon true false [] 0 0.
+
+(* ------------------------------------------------------------------ vocabulary of the C16 theorems *)
+
+Definition is_nil {A} (l : list A) : bool := match l with [] => true | _ => false end.
+
+Definition short (ts : list telegram) (buf : bytes) : Prop :=
+  match ts with [] => buf = [] | t :: _ => (length buf < frame_len t)%nat end.
+
+Definition delivered (outs : list poll_out) : list telegram := map fst (concat (map po_deliv outs)).
+
+Definition final_buffer (buf : bytes) (outs : list poll_out) : bytes := last (map po_rest outs) buf.
+
+(* after every poll: what was delivered so far followed by what is still buffered is exactly
+   what has arrived (nothing dropped, nothing duplicated), and what is buffered is shorter than
+   the next outstanding frame (so no complete telegram was left behind) *)
+Fixpoint history_ok (ts : list telegram) (buf : bytes) (cs : list bytes) (outs : list poll_out) : Prop :=
+  match cs, outs with
+  | [], [] => True
+  | c :: cs', o :: outs' =>
+      exists rem,
+        ts = map fst (po_deliv o) ++ rem /\
+        buf ++ c = stream (map fst (po_deliv o)) ++ po_rest o /\
+        short rem (po_rest o) /\
+        history_ok rem (po_rest o) cs' outs'
+  | _, _ => False
+  end.
+
+Definition phy_coherent {P} (ops : phy_ops P) : Prop :=
+  forall p buf n, phy_view ops p = Ok buf -> (n <= length buf)%nat ->
+                  phy_view ops (phy_drop ops p n) = Ok (skipn n buf).
+
+Definition no_overflow (bus : simbus) (c : captured) (t : Z) : Prop :=
+  t - c_ts c <= 9223372036854775807 /\ (t - c_ts c) * baud_to_rate (sb_baud bus) <= 18446744073709551615.
